@@ -212,11 +212,12 @@ def _sign_ops(prog, res):
   for loop in ast.walk(fn.node):
     if isinstance(loop, ast.For):
       temp_ok = False
+      SLOPE = ('heights[i-1]*(lengths[i]/lengths[i-1])',
+               'heights[i-1]*lengths[i]/lengths[i-1]')
+      temp_def = {}
       for st in loop.body:
-        if isinstance(st, ast.Assign) and dotted(st.targets[0]) == 'temp':
-          t = norm_text(st.value).replace(' ', '')
-          temp_ok = t in ('heights[i-1]*(lengths[i]/lengths[i-1])',
-                          'heights[i-1]*lengths[i]/lengths[i-1]')
+        if isinstance(st, ast.Assign) and isinstance(st.targets[0], ast.Name):
+          temp_def[st.targets[0].id] = norm_text(st.value).replace(' ', '')
         if isinstance(st, ast.If) and 'convexity' in names_read(st.test):
           v = const_value(st.test.comparators[0]) if isinstance(
               st.test, ast.Compare) else None
@@ -224,8 +225,14 @@ def _sign_ops(prog, res):
           for branch, sign in ((st.body, v), (st.orelse, -v if v else None)):
             for a in branch:
               if isinstance(a, ast.Assign) and isinstance(a.value, ast.Call):
-                ops[sign] = (prog.ext_name(fn.module, a.value.func),
-                             [norm_text(x) for x in a.value.args])
+                # the second operand through its local name, if it has one
+                args = [norm_text(x) for x in a.value.args]
+                if len(args) == 2:
+                  second = temp_def.get(args[1], args[1].replace(' ', ''))
+                  if second in SLOPE:
+                    temp_ok = True
+                    args[1] = 'temp'
+                ops[sign] = (prog.ext_name(fn.module, a.value.func), args)
           for sign, exp in ((1, 'tf.maximum'), (-1, 'tf.minimum')):
             got = ops.get(sign, (None, []))
             res.check(got[0] == exp and got[1] == ['heights[i]', 'temp'],
